@@ -179,6 +179,7 @@ def run(report, p):
     # well-formedness comes first: a value written around the escaping builder makes the document invalid before any content model is looked at
     # (shared rule, evaluated before the templates are extracted so that its verdict stands even if the template of such a writer cannot be built)
     _positional_inserts(report, p)
+    _none_text_rule(report, p)
     neg_zero_slice_rule(report, p, prov(p), 'R11.9', [c_.qual for c_ in commands(p).values()], 'any command')
     include_rules(report, p, 'c10', ['R10.2'], 'every variable value is escaped by the XML builder: a chain or manifest with a raw `&` or `<` from a file or folder name is not well-formed, let alone valid')
     em, mdoc, cdoc, raw = documents(p)
@@ -587,6 +588,82 @@ def _is_ignore_spec(p, guard):
 def allowed_transient(p, tname):
     # 'new' is rewritten to 'verified' before serialisation (R11.6)
     return {"new"} if tname == "ActionAttributeType" else set()
+
+
+_OPTIONAL_FIELDS = {
+    # fields that are None when the corresponding option was not given / the value is not known (confirmed by reading the constructors and the commands)
+    "MHLAuthor": {"name", "role", "email", "phone"},
+    "MHLCreatorInfo": {"location", "comment"},
+    "MHLMediaHash": {"previous_path", "file_size", "last_modification_date"},
+    "MHLHashEntry": {"hash_date"},
+}
+
+
+def _none_text_rule(report, p):
+    """R11.12: no None reaches the element builder as text"""
+    r = report.rule(
+        "R11.12",
+        "no None as text: a value handed to the element builder as text (`E.tag(value)`; `element.text = None` is harmless) that can be a model field which is None when "
+        "the option was not given (author name / role / email / phone, location, comment, previous path ...) is handed over only under a test that it is not "
+        "None - lxml raises TypeError for None, in the middle of write_hash_list: the run ends with a traceback, a stray .mhl.tmp and (for a first generation) an "
+        "ascmhl folder without chain file",
+        2,
+    )
+    from .common import atomic_deps as _ad
+
+    def alternatives(e):
+        if isinstance(e, ast.IfExp):
+            return [(x, g + [(e.test, "T")]) for x, g in alternatives(e.body)] + [(x, g + [(e.test, "F")]) for x, g in alternatives(e.orelse)]
+        if isinstance(e, ast.BoolOp) and isinstance(e.op, ast.Or):
+            out = []
+            for i, v in enumerate(e.values):
+                last = i == len(e.values) - 1
+                for x, g in alternatives(v):
+                    out.append((x, g + ([] if last else [(v, "T")])))  # a non-last operand of `or` is the value only when it is true (so not None)
+            return out
+        return [(e, [])]
+
+    n = 0
+    for fq, f in sorted(p.funcs.items()):
+        if not f.module.name.endswith("_xml_parser"):
+            continue
+        g = None
+        sites = []
+        for c in walk_no_nested(f.node):
+            if isinstance(c, ast.Call):
+                fn = c.func
+                is_E = (isinstance(fn, ast.Attribute) and isinstance(fn.value, ast.Name) and fn.value.id == "E") or (isinstance(fn, ast.Name) and fn.id == "E")
+                if is_E:
+                    args = c.args[1:] if isinstance(fn, ast.Name) else c.args
+                    for a in args:
+                        if not isinstance(a, (ast.Starred, ast.Dict)):
+                            sites.append((c, a))
+        for holder, val in sites:
+            for alt_e, local_guards in alternatives(val):
+                if not isinstance(alt_e, ast.Attribute):
+                    continue
+                try:
+                    t = p.etype(alt_e.value, f)
+                except Exception:
+                    t = None
+                cls = t[1].split(".")[-1] if t and t[0] == "C" else None
+                if cls is None and isinstance(alt_e.value, ast.Name):
+                    cls = {"author": "MHLAuthor", "creator_info": "MHLCreatorInfo", "media_hash": "MHLMediaHash", "hash_entry": "MHLHashEntry"}.get(alt_e.value.id)
+                if cls not in _OPTIONAL_FIELDS or alt_e.attr not in _OPTIONAL_FIELDS[cls]:
+                    continue
+                n += 1
+                r.instance(f, holder, f"{f.name}: {norm(alt_e)} as text")
+                me = norm(alt_e)
+                if g is None:
+                    g = cfg_of(f)
+                atoms = [a for t_, l_ in g.necessary_branches(g.node_for(holder)) for a in _ad(t_.ast, l_)]
+                for tst, lab in local_guards:
+                    atoms += _ad(tst, lab)
+                ok = any((a_ == me and l_ == "T") or (a_ in (f"{me} is None", f"{me} == None") and l_ == "F") for a_, l_ in atoms)
+                r.check(ok, f, holder, f"`{norm(val)[:60]}` can hand `{me}` to the element builder when it is None (the option was not given): lxml raises TypeError('Argument must be bytes or unicode, got NoneType') while the manifest is being written - exit 1, the temporary file stays behind, and a first generation leaves an ascmhl folder without chain file on which every later command aborts", construct=f"{f.name}: {me} may be None as text")
+    if n == 0:
+        raise AnalysisError("no optional model field is written as element text in the XML writers (anchor vanished)")
+    r.check(True, None, None, "")
 
 
 def _resolve_iter(f, e):
